@@ -11,6 +11,7 @@ CONSTANTS
   DEV_DirNotCreated = FALSE
   DEV_CreateThroughLink = FALSE
   DEV_AbsInside = TRUE
+  DEV_DirThroughLink = FALSE
   DEV_LinkRawName = FALSE
 INVARIANT TypeOK
 CHECK_DEADLOCK FALSE
